@@ -446,6 +446,7 @@ func (in *Interp) runPath(fn *ssa.Function, it *WorkItem) *PathResult {
 	in.unwind = in.ex.cfg.Unwind
 	in.mapOrderAll = false
 	in.knownActive = ""
+	in.forkIndex = false
 	in.pcSet = map[*Term]bool{}
 	in.xxMemo = nil
 	in.uncertain = it.Uncertain
